@@ -61,7 +61,7 @@ ASSUMPTIONS = [
     "max_category_ratio < 1 only with tensor masks (needs Tensor.unique); erasing min_count >= 1; two-crop tries=None only with the full IoU window",
     "SpecAugment band width is required to be strictly below the mask parameter (torchaudio's documented [0, mask_param))",
     "placement of the semseg padding (centred) and the number of erased rectangles actually drawn are not judged",
-    "denorm(norm(x)) is compared with atol 1e-5 on values in [0,1], std in [0.05, 2]",
+    "denorm(norm(x)) / norm(denorm(x)) are compared with atol 1e-5 on values in [0,1], std in [0.05, 2]; the closed forms (x-mean)/std and y*std+mean with rtol = atol = 1e-5",
 ]
 MONITORS = ["crop_reproduced", "erase_checked", "specaugment_checked", "paired_checked", "pipeline_checked", "inverse_checked",
             "pipeline_separate_access_with_image_only_draws", "multi_call_series"]
@@ -258,6 +258,41 @@ def _gen_rresize_cfg(rng, sizes):
     return None
 
 
+def _gen_norm_stats(rng, c):
+    """per-channel statistics, biased to the boundary classes: exact 0 in some / all means, exact 1 in some / all stds,
+    integer-typed statistics -> (mean, std, class name)"""
+    cls = rng.choice(["random", "random", "mean_some_zero", "mean_some_zero", "mean_all_zero", "std_some_one", "std_all_one",
+                      "zero_mean_unit_std", "int", "int_mixed"])
+    mean = [round(rng.uniform(0.01, 1), 3) for _ in range(c)]
+    std = [round(rng.uniform(0.05, 2), 3) for _ in range(c)]
+    def some(n):
+        k = rng.randint(1, max(1, n - 1))
+        return set(rng.sample(range(n), k))
+    if cls == "mean_some_zero":
+        if c == 1:
+            cls = "mean_all_zero"
+        else:
+            for i in some(c):
+                mean[i] = 0.0
+    if cls == "mean_all_zero":
+        mean = [0.0] * c
+    elif cls == "std_some_one":
+        for i in some(c):
+            std[i] = 1.0
+        if rng.random() < 0.5 and c > 1:
+            mean[rng.randrange(c)] = 0.0
+    elif cls == "std_all_one":
+        std = [1.0] * c
+    elif cls == "zero_mean_unit_std":
+        mean, std = [0.0] * c, [1.0] * c
+    elif cls == "int":
+        mean, std = [rng.choice([0, 1]) for _ in range(c)], [rng.choice([1, 2]) for _ in range(c)]
+    elif cls == "int_mixed":
+        mean = [rng.choice([0, 1, round(rng.uniform(0.01, 1), 3)]) for _ in range(c)]
+        std = [rng.choice([1, 2, round(rng.uniform(0.05, 2), 3)]) for _ in range(c)]
+    return mean, std, cls
+
+
 def _gen_spec(rng, kind):
     s = {"kind": kind, "seed": rng.randrange(2 ** 31), "data_seed": rng.randrange(2 ** 31)}
     io = rng.choice(["tensor", "tensor", "pil"])
@@ -370,9 +405,10 @@ def _gen_spec(rng, kind):
         s.update(h=h, w=w, c=rng.choice([1, 3, 5]) if io == "tensor" else rng.choice([1, 3]), io=io, ph=ph, pw=pw,
                  size_form=rng.choice(["tuple", "int"]) if ph == pw else "tuple")
     elif kind == "norm":
-        c = rng.choice([1, 3, 5]) if io == "tensor" else rng.choice([1, 3])
-        s.update(h=_side(rng, 32), w=_side(rng, 32), c=c, io=io, which=rng.choice(["image", "range"]), inplace=rng.random() < 0.5, inplace_inv=rng.random() < 0.5,
-                 mean=[round(rng.uniform(0, 1), 3) for _ in range(c)], std=[round(rng.uniform(0.05, 2), 3) for _ in range(c)])
+        c = rng.choice([1, 1, 2, 3, 3, 4, 5, 8]) if io == "tensor" else rng.choice([1, 3])
+        mean, std, stats = _gen_norm_stats(rng, c)
+        s.update(h=_side(rng, 32), w=_side(rng, 32), c=c, io=io, which=rng.choice(["image", "image", "range"]), inplace=rng.random() < 0.5,
+                 inplace_inv=rng.random() < 0.5, mean=mean, std=std, stats=stats)
     else:
         raise ValueError(kind)
     if kind in CROP_KINDS or kind in ("patchify_image", "shuffle_chain"):
@@ -1015,8 +1051,28 @@ def _inverse_case(run, s):
             name = "KDImageRangeNorm()"
         what = f"{name} norm(inplace={ip_f}) / denorm(inverse=True, inplace={ip_b}) on {s['io']} {c}x{h}x{w}"
         fwd, bwd = mk(False, ip_f), mk(True, ip_b)
-        run.cover("norm", s["which"], s["io"], ip_f, ip_b, c)
+        zeros = sum(1 for m in s["mean"] if m == 0)
+        run.cover("norm", s["which"], s["io"], ip_f, ip_b, min(c, 4))
+        run.cover("norm_stats", s["which"], s.get("stats"), "none" if zeros == 0 else "all" if zeros == c else "some",
+                  any(v == 1 for v in s["std"]), any(isinstance(v, int) for v in list(s["mean"]) + list(s["std"])), min(c, 4))
         key = f"inverse:norm-{s['which']}"
+        # closed form, written from the definition: norm(x)[k] = (x[k] - mean[k]) / std[k], denorm(y)[k] = y[k] * std[k] + mean[k]
+        if s["which"] == "image":
+            m64 = torch.tensor([float(v) for v in s["mean"]], dtype=torch.float64).view(-1, 1, 1)
+            s64 = torch.tensor([float(v) for v in s["std"]], dtype=torch.float64).view(-1, 1, 1)
+        else:
+            m64 = torch.full((c, 1, 1), 0.5, dtype=torch.float64)
+            s64 = torch.full((c, 1, 1), 0.5, dtype=torch.float64)
+
+        def closed(y, src, inverse, label):
+            ref = src.to(torch.float64) * s64 + m64 if inverse else (src.to(torch.float64) - m64) / s64
+            run.count("norm_closed_form_checked")
+            if tuple(y.shape) != tuple(ref.shape) or not torch.allclose(y.to(torch.float64), ref, rtol=1e-5, atol=1e-5):
+                err = float((y.to(torch.float64) - ref).abs().max()) if tuple(y.shape) == tuple(ref.shape) else "shape"
+                V(f"{key}:{'denorm' if inverse else 'norm'}-closed-form", f"{what} {label}: result differs from "
+                  f"{'y*std+mean' if inverse else '(x-mean)/std'} by {err}")
+                return False
+            return True
 
         def call(t, arg, inplace, label):
             """one __call__; the argument is compared with its pre-call clone. -> result or None"""
@@ -1054,10 +1110,11 @@ def _inverse_case(run, s):
         # direction 1: denorm(norm(x)); the intermediate result is handed on as it is
         a1 = x.clone() if torch.is_tensor(x) else x
         n1 = call(fwd, a1, ip_f, "[norm(x)]")
-        if n1 is None:
+        if n1 is None or not closed(n1, xt, False, "[norm(x)]"):
             return
+        n1_val = n1.clone()
         d1 = call(bwd, n1, ip_b, "[denorm(norm(x))]")
-        if d1 is None:
+        if d1 is None or not closed(d1, n1_val, True, "[denorm(norm(x))]"):
             return
         run.count("inverse_checked")
         if not close(d1, "denorm(norm(x))", "denorm-of-norm"):
@@ -1065,10 +1122,11 @@ def _inverse_case(run, s):
         # direction 2: norm(denorm(x))
         a2 = x.clone() if torch.is_tensor(x) else x
         d2 = call(bwd, a2, ip_b, "[denorm(x)]")
-        if d2 is None:
+        if d2 is None or not closed(d2, xt, True, "[denorm(x)]"):
             return
+        d2_val = d2.clone()
         n2 = call(fwd, d2, ip_f, "[norm(denorm(x))]")
-        if n2 is None:
+        if n2 is None or not closed(n2, d2_val, False, "[norm(denorm(x))]"):
             return
         run.count("inverse_checked")
         close(n2, "norm(denorm(x))", "norm-of-denorm")
